@@ -1038,6 +1038,8 @@ func Impl() {
 			return guard(func() string { return doWd(f) })
 		case "many":
 			return guard(func() string { return doMany(f) })
+		case "wdx":
+			return guard(func() string { return doWdx(f) })
 		}
 		return "bad-op"
 	})
